@@ -995,3 +995,141 @@ def run_fconds(texts, wd, tag='cnfparse'):
     for i, _, _ in cases:
         out[i] = (out[i][0], verdicts.get(i, 'NoModelOutput'), out[i][2])
     return out
+
+
+# ------------------------------------------------------------------ assignments (LetParse.assignment)
+LET_HEADER = ('From Coq Require Import String ZArith NArith List.\nFrom GV.Model Require Import Ast.\nFrom GV.Model Require Import ValueParse QueryParse OpParse ClauseParse CnfParse FilterParse ClauseFParse LetParse.\n'
+              'Import ListNotations.\n')
+
+
+def impl_let_term(res):
+    if res[0] != 'Ok':
+        return {'Error': 'ILError', 'Failure': 'ILFailure'}.get(res[0], 'ILOther')
+    e = res[1]
+    name, w = ct.S(e[1]), e[2]
+    if w[0] == 'LValue':
+        try:
+            wt = '(IFRLit %s)' % pv_lit_term(w[1])
+        except ct.TranslateError:
+            wt = 'IFROther'
+    elif w[0] == 'LAccess':
+        wt = '(IFRQuery %s %s)' % fparts_term(w[1])
+    else:
+        wt = 'IFROther'
+    return '(ILOk %s %s %d%%N)' % (ct.cstr(name), wt, res[2])
+
+
+LET_HEADS = ['let', 'LET', 'Let', 'le', 'lets', 'let_', '']
+LET_NAMES = ['x', 'buckets', 'a_1', 'X9', '_x', '9x', 'é', 'xé', 'let', 'when', '', 'a-b', 'a.b']
+LET_EQS = ['=', ':=', ' = ', ' := ', '\n=\n', ' # c\n = ', '==', '=:', ':', ': =', '', ' =', '= ', ':=:=']
+LET_VALUES = ['1', '"s"', "'s'", '[1, 2]', '{a: 1}', 'true', 'null', '/re/', 'r(1,5)', '1.5', 'a', 'a.b[0]', "Resources.*[ Type == 'T' ]", '%v', '%v.x', 'this.a', 'some a[*]', 'count(a)', 'to_lower(%v)', 'count (a)',
+              'nullable', 'trueValue', 'rate', '[1,', '"open', '', '}', 'a[ b == 1 ].c', "a[ keys == 'k' ]", 'json_parse(a)', 'a or b', '%v[ k | x exists ]']
+LET_TAILS = ['', '\n', '\nrule r {', ' # c', ' x', '\nlet y = 2']
+
+
+def let_corpus(seed, n):
+    rng = random.Random(seed * 1009 + 14)
+    texts = []
+    for v in LET_VALUES:
+        for eq in LET_EQS[:6]:
+            texts.append('let x' + eq + v)
+            texts.append('let x' + eq + v + '\n')
+    for h in LET_HEADS:
+        for sp in (' ', '', '\n', ' # c\n ', '\t'):
+            texts.append(h + sp + 'x = 1')
+    for nm in LET_NAMES:
+        texts += ['let ' + nm + ' = 1', 'let ' + nm + '= a.b', 'let ' + nm + ' := "s"']
+    for eq in LET_EQS:
+        texts += ['let x' + eq + '1', 'let x' + eq + 'a.b', 'let x ' + eq + ' [1]']
+    while len(texts) < n:
+        t = rng.choice(LET_HEADS[:3] + ['let'] * 6) + rng.choice([' ', ' ', '  ', '\n', ' # c\n', '']) + rng.choice(LET_NAMES) + rng.choice(LET_EQS)
+        r = rng.random()
+        if r < 0.5:
+            t += rng.choice(LET_VALUES)
+        elif r < 0.75:
+            from . import vparse
+            t += vparse.gen_value_text(rng, 1, broken=rng.choice([0.0, 0.0, 0.3]))
+        else:
+            t += gen_query_text(rng)
+        t += rng.choice(LET_TAILS)
+        texts.append(t)
+        if rng.random() < 0.25:
+            texts.append(mutate(t, rng))
+    seen, out = set(), []
+    for t in texts:
+        if t not in seen:
+            seen.add(t); out.append(t)
+    return out
+
+
+def run_lets(texts, wd, tag='letparse'):
+    from . import vparse
+    res = impl.run_ops_parallel([{'op': 'plet', 'text': t} for t in texts], wd, tag + '.pl')
+    cands = sorted(set().union(*[vparse.regex_candidates(t) for t in texts])) if texts else []
+    cand_txt = []
+    for c in cands:
+        try:
+            cand_txt.append(c.decode('utf-8'))
+        except UnicodeDecodeError:
+            pass
+    rres = impl.run_ops_parallel([{'op': 'regex', 're': c, 'text': ''} for c in cand_txt], wd, tag + '.re') if cand_txt else []
+    valid = {}
+    for c, r in zip(cand_txt, rres):
+        rr = r.get('res')
+        valid[c] = bool(rr) and rr[0] == 'Ok'
+    cases, out = [], [None] * len(texts)
+    for i, (t, r) in enumerate(zip(texts, res)):
+        if 'res' not in r:
+            out[i] = (t, 'crash', r)
+            continue
+        mine = [c for c in cand_txt if c.encode('utf-8') in vparse.regex_candidates(t)] if '/' in t else []
+        table = ct.clist(['(%s, %s)' % (ct.cstr(c), ct.cbool(valid[c])) for c in mine])
+        rv = '(fun s => match assoc s %s with Some b => b | None => false end)' % table
+        try:
+            it = impl_let_term(r['res'])
+        except (ct.TranslateError, KeyError, IndexError, TypeError):
+            it = 'ILOther'
+        cases.append((i, '', 'let_obs %s %s %s' % (rv, ct.cstr(t), it)))
+        out[i] = (t, None, r['res'])
+    verdicts, errors = model.eval_cases(cases, wd, tag, header=LET_HEADER, per_file=150)
+    if errors:
+        raise ToolingError('model evaluation failed: %r' % (errors[:1],))
+    for i, _, _ in cases:
+        out[i] = (out[i][0], verdicts.get(i, 'NoModelOutput'), out[i][2])
+    return out
+
+
+def check_assignments(ctx, tag, n):
+    """assignments: Model/LetParse.v against parser.rs `assignment` through the hook `plet`; and on the implementation alone: `=` and `:=`
+    with different layouts give the same assignment"""
+    texts = let_corpus(ctx.seed, n)
+    out = run_lets(texts, ctx.wd, tag)
+    stats = {}
+    for t, v, r in out:
+        stats[v] = stats.get(v, 0) + 1
+        if v in ('PLAgree', 'PLAgreeReject', 'PLNotModelled'):
+            continue
+        ctx.failing('assignment %r: `assignment` answers %s, the model of the grammar says otherwise (%s)' % (t[:80], json.dumps(r)[:200], v),
+                    {'class': 'assignment-grammar-correspondence', 'text': t, 'impl': r, 'verdict': v}, found=False)
+    vals = ['1', '"s"', '[1, {a: 2}]', 'a.b[0]', "Resources.*[ Type == 'T' ]", '%v.x', 'count(a.b)']
+    signs = ['=', ':=', ' = ', ' := ', '\n  =\n  ', ' # c\n := # d\n ']
+    ops = [{'op': 'plet', 'text': 'let x' + sg + v + '\n'} for v in vals for sg in signs]
+    res = impl.run_ops(ops, ctx.wd, tag + '.eq')
+    k = 0
+    for v in vals:
+        seen = None
+        for sg in signs:
+            rr = res[k].get('res'); k += 1
+            if not rr or rr[0] != 'Ok':
+                ctx.failing('the assignment %r is not accepted: %s' % ('let x' + sg + v, json.dumps(rr)[:160]), {'class': 'assignment-sign', 'text': 'let x' + sg + v}, found=True)
+                continue
+            sv = re.sub(r'\["Loc"[^\]]*\]', 'null', json.dumps(rr[1]))
+            sv = re.sub(r'\["Path"[^\]]*\]', 'null', sv)
+            if seen is None:
+                seen = sv
+            elif sv != seen:
+                ctx.failing('the sign %r gives another assignment of %r than `=`' % (sg, v), {'class': 'assignment-sign', 'text': 'let x' + sg + v}, found=True)
+    ctx.coverage['assignment_texts'] = len(texts)
+    ctx.coverage['assignment_verdicts'] = stats
+    ctx.coverage['evaluations'] += len(texts) + len(ops)
+    return stats.get('PLAgree', 0)
